@@ -52,6 +52,9 @@ class World:
         self.last_run_seams = 12  # seam events of the latest complete `gwf run` (to place faults in the next one)
         self.last_gwf_faulted = False
         self.on_job_start_extra = None  # scenario hook(job) at every job start
+        self.nested_at = None  # {i: argv}: a complete read-only gwf invocation of "another terminal" before the i-th submission
+        self.nest_depth = 0
+        self.submit_seams = 0
         self.cancel_requested_ids = set()  # cluster job ids some gwf invocation asked the scheduler to cancel
         self.history_accepted = []  # every (name, id, deps) accepted so far, in order
         self.kill_at = None  # (k, 'before'|'after') for the current invocation
@@ -198,9 +201,15 @@ class World:
         self.seam_count += 1
         k = self.seam_count
         self.seam_log.append((kind, detail))
-        self.trace.log("seam", k=k, kind=kind, detail=detail)
+        self.trace.log("seam" if self.nest_depth == 0 else "seam_nested", k=k, kind=kind, detail=detail)
         if self.between_seams is not None:
             self.between_seams(kind, detail)
+        if self.nested_at and self.nest_depth == 0 and (
+                kind in ("cmd:sbatch", "cmd:qsub", "cmd:bsub") or (kind == "sock:send" and "enqueue_task" in detail)):
+            self.submit_seams += 1
+            argv = self.nested_at.pop(self.submit_seams, None)
+            if argv:
+                self.nested_gwf(argv)
         if self.kill_at is not None and self.kill_at == (k, "before"):
             self.frozen = True
             self.fault("kill_before_" + kind.split(":")[0])
@@ -240,12 +249,50 @@ class World:
             return os.path.join(self.base, "elsewhere"), ["-f", self.path("workflow.py")]
         return self.proj, []
 
+    def nested_gwf(self, argv):
+        """Another gwf process (a second terminal) runs from start to end while the current invocation is
+        between two of its steps.  Everything that belongs to one invocation is saved and restored."""
+        keep = ("seam_count", "seam_log", "kill_at", "intr_at", "io_fault", "frozen", "accepted_now", "in_invocation",
+                "between_seams", "nested_at", "submit_seams", "last_gwf_faulted", "last_run_seams")
+        saved = {k: getattr(self, k) for k in keep}
+        inc = getattr(self.fs, "incarnation", 0)
+        csaved = (dict(self.cluster.cmd_count), list(self.cluster.cmd_log), list(self.cluster.faults)) if self.cluster else None
+        lsaved = (self.local.n_readline, dict(self.local.reply_faults)) if self.local is not None else None
+        self.between_seams = None
+        self.nested_at = None
+        self.nest_depth += 1
+        self.probe("nested_invocations")
+        self.trace.log("nested_begin", argv=list(argv))
+        try:
+            res = self.gwf(argv, "root")
+        finally:
+            self.nest_depth -= 1
+            for k, v in saved.items():
+                setattr(self, k, v)
+            self.fs.incarnation = inc  # the outer process lives on; the nested one's descriptors are dead
+            if csaved:
+                self.cluster.cmd_count, self.cluster.cmd_log, self.cluster.faults = csaved
+            if lsaved:
+                self.local.n_readline, self.local.reply_faults = lsaved
+        self.trace.log("nested_end", exit=res.exit_code, accepted=res.accepted)
+        if res.accepted or res.cancel_requests:
+            self.flag("C05", "preview_touched_scheduler", f"gwf {' '.join(argv)} (second terminal) submitted {res.accepted} "
+                      f"/ cancelled {res.cancel_requests}")
+        if res.exception is not None or res.exit_code != 0:
+            for p in sorted(self.props):
+                self.flag(p, "command_failed", f"gwf {' '.join(argv)} in a second terminal, during a run: exit {res.exit_code} "
+                          f"{type(res.exception).__name__ if res.exception else ''}", command=argv[0])
+        return res
+
     def gwf(self, argv, cwd_mode="root", stdin=None, kill_at=None, intr_at=None, io_fault=None, cmd_faults=()):
         cwd, pre = self.cwd_for(cwd_mode)
         if self.knobs.get("verbose_flag") and "-v" not in argv and self.backend != "multi":
             pre = pre + ["-v", self.knobs["verbose_flag"]]
         self.seam_count = 0
         self.seam_log = []
+        # file objects of earlier invocations are dead: every invocation gets an id of its own
+        self.fs.inc_counter = getattr(self.fs, "inc_counter", 0) + 1
+        self.fs.incarnation = self.fs.inc_counter
         self.kill_at = tuple(kill_at) if kill_at else None
         self.intr_at = intr_at
         self.io_fault = tuple(io_fault) if io_fault else None
@@ -261,11 +308,15 @@ class World:
             self.local.n_readline = 0
             self.local.reply_faults = {k: kind for exe, k, kind in cmd_faults if exe == "sock"}
         self.in_invocation = True
+        if self.nest_depth == 0:
+            self.submit_seams = 0
         try:
             res = invoke(pre + list(argv), cwd, input=stdin)
         finally:
             self.in_invocation = False
             self.kill_at = self.intr_at = self.io_fault = None
+            if self.nest_depth == 0:
+                self.nested_at = None
         self.n_invocations += 1
         if self.local is not None:
             self.local.pump()
